@@ -480,6 +480,10 @@ def part_a(ck, hist, tag, pack=None, model=True):
                     variants.append(('trunc%d' % ln, {'Data.fs.index': sb[:ln]}, nret - app[-1][2], None))
             junk = dict(JUNK)
             variants.append(('leftovers', junk, 0, None))
+            # every side file zero-length; .old/.pack/.trN being directories (nothing the storage reads or writes)
+            variants.append(('leftovers-empty', {n: b'' for n in JUNK}, 0, None))
+            variants.append(('leftovers-dirs', {'Data.fs.old': None, 'Data.fs.pack': None, 'Data.fs.tr0': None,
+                                                'Data.fs.tmp': b'', 'Data.fs.lock': b''}, 0, None))
             if app:
                 j2 = dict(JUNK)
                 j2['Data.fs.index'] = app[-1][1]
@@ -775,7 +779,9 @@ def gen_ro_spec(rng, idx):
     """a self-contained, replayable read-only session"""
     n = rng.choice([4, 8, 12, 20])
     return dict(history=L.gen_history(rng, 'small', ntx=rng.choice([1, 2, 3, 4])),
-                mode=rng.choice(['closed', 'closed', 'tail', 'tail', 'writer', 'writer', 'writer-voted']),
+                mode=['closed', 'tail', 'writer', 'writer-voted', 'tail', 'writer-begun', 'closed', 'writer-stored',
+                      'writer-voted', 'writer'][idx % 10],
+                blob=(idx % 3 == 1),
                 calls=[rng.choice(READ_APIS + WRITE_APIS + WRITE_APIS + OTHER_APIS + EXTRA_REAL) for _ in range(n)] + ['close'],
                 seed=rng.randrange(1 << 30), index=idx, opener=['direct', 'config'][idx % 2])
 
@@ -792,9 +798,12 @@ def ro_session(ck, spec):
     hist, mode = spec['history'], spec['mode']
     oids, tids = c01.history_oids_tids(hist)
     viol = []
+    if spec.get('blob') and hist:
+        hist = [dict(hist[0], opts=dict(via='direct', blob_dir=True))] + list(hist[1:])   # the blob directory exists
     rr = L.run_history(hist, root, keep_open=(mode.startswith('writer')))
     path = os.path.join(root, 'Data.fs')
     writer = getattr(rr, 'fs', None)
+    blob_dir = os.path.join(root, 'blobs') if spec.get('blob') else None
     if mode == 'tail':
         # a crash image: the bytes of a voted, unfinished transaction (or a part of them) at the end
         tail = b''
@@ -808,21 +817,53 @@ def ro_session(ck, spec):
             f.write((tid + rest)[:max(1, cutlen)])
     rec = vfs.Recorder(root)
     calls, outs = [], []
+    voted_later = False
     with vfs.install(rec):
         md = None
-        if mode == 'writer-voted':
+        if mode in ('writer-voted', 'writer-begun', 'writer-stored'):
+            # the writer is at one of the steps of a commit when the read-only instance is opened
             md = TransactionMetaData()
             writer.tpc_begin(md, tid=L.p64(max(tids) + 0x5000000))
-            writer.store(L.p64(4242), L.Z64, b'in-flight' * 7, '', md)
-            writer.tpc_vote(md)
+            if mode != 'writer-begun':
+                writer.store(L.p64(4242), L.Z64, b'in-flight' * (7 if mode == 'writer-voted' else 3000), '', md)
+            if mode == 'writer-voted':
+                writer.tpc_vote(md)
         rec.readonly_guard = True
+        # read_only + create is refused and touches nothing
+        snap0 = vfs.snapshot(root)
+        for way in ('direct', 'config'):
+            try:
+                if way == 'direct':
+                    x = FileStorage(path, read_only=True, create=True)
+                else:
+                    import ZODB.config
+                    x = ZODB.config.storageFromString('<filestorage>\n path %s\n read-only true\n create true\n'
+                                                      '</filestorage>\n' % path)
+                x.close()
+                viol.append(('C09:ro-create-not-refused', 'read_only together with create (%s) was accepted' % way,
+                             dict(spec, calls=[])))
+            except ValueError:
+                pass
+            except Exception as e:
+                if not (isinstance(e, OSError) and e.errno == 30):
+                    viol.append(('C09:ro-create-not-refused', 'read_only together with create (%s) raised %s instead of '
+                                 'ValueError' % (way, L.ename(e)), dict(spec, calls=[])))
+            if vfs.snapshot(root) != snap0 or any(e[0] == 'VIOLATED-RO' for e in rec.events):
+                viol.append(('C09:ro-mutated:open', 'a refused read_only+create open (%s) modified the directory' % way,
+                             dict(spec, calls=[])))
+                rec.events[:] = [e for e in rec.events if e[0] != 'VIOLATED-RO']
+                break
         before = vfs.snapshot(root)
         try:
             if spec.get('opener') == 'config':
                 # the other way to open the same thing: a <filestorage> section with `read-only true`
                 import ZODB.config
-                ro = ZODB.config.storageFromString('<filestorage>\n  path %s\n  read-only true\n</filestorage>\n' % path)
+                ro = ZODB.config.storageFromString('<filestorage>\n  path %s\n  read-only true\n%s</filestorage>\n'
+                                                   % (path, '  blob-dir %s\n' % blob_dir if blob_dir else ''))
                 ck.count('ro-opener:config')
+            elif blob_dir:
+                ro = FileStorage(path, read_only=True, blob_dir=blob_dir)
+                ck.count('ro-opener:blob_dir')
             else:
                 ro = FileStorage(path, read_only=True)
             if not ro.isReadOnly():
@@ -896,8 +937,14 @@ def ro_session(ck, spec):
             if writer is not None and rng.random() < 0.3 and name != 'close':
                 rec.readonly_guard = False
                 if md is not None:
-                    (writer.tpc_finish if rng.random() < 0.5 else writer.tpc_abort)(md)
+                    if rng.random() < 0.5:
+                        if mode != 'writer-voted' and not voted_later:
+                            writer.tpc_vote(md)
+                        writer.tpc_finish(md)
+                    else:
+                        writer.tpc_abort(md)
                     md = None
+                    voted_later = True
                 else:
                     md = TransactionMetaData()
                     writer.tpc_begin(md)
